@@ -369,10 +369,8 @@ pub(crate) fn prepare_insertion_ctx(insertion_ctx: &mut InsertionContext) {
 pub(crate) fn finalize_insertion_ctx(insertion_ctx: &mut InsertionContext) {
     finalize_unassigned(insertion_ctx, UnassignmentInfo::Unknown);
 
-    insertion_ctx.problem.goal.accept_solution_state(&mut insertion_ctx.solution);
-
     // NOTE a route can be added in attempt to recover from insertion failure (e.g. tour limits) and stay without jobs
-    insertion_ctx.solution.remove_empty_routes();
+    insertion_ctx.restore();
 }
 
 pub(crate) fn apply_insertion_success(insertion_ctx: &mut InsertionContext, success: InsertionSuccess) {
